@@ -685,6 +685,7 @@ def run(ctx: Context):
                       "%s is %s, not element %d of shares_available()[version]" % (key, got, i))
         sa = idx.func(SMAP + ".shares_available")
         sn_ = FlowNorm(sa)
+        _sacfg, sa_head, _sa_v, sa_shares = _versionmap_loop(sa, sn_)
         k = 0
         for n in sa.cfg().nodes:
             a = n.ast
@@ -699,10 +700,14 @@ def run(ctx: Context):
                     if isinstance(x, ast.Name):
                         ds = [d for d in all_defs(sa).get(x.id, [])]
                         ok0 = bool(ds) and all(isinstance(d, (ast.SetComp,)) or (isinstance(d, ast.Call) and call_name(d) == "set") for d in ds)
-                        # what goes into the set is the share number of the version's shares
+                        # what goes into the set is the share number of the version's shares: component 0 of the loop
+                        # target of a loop over the shares of this version (the local is found by that role, not by name)
                         adds = [c for c in calls_in_func(sa, "add") if attr_path(c.func.value) == x.id]
+                        fors = [y for y in ast.walk(sa_head.ast) if isinstance(y, ast.For) and y is not sa_head.ast
+                                and isinstance(y.iter, ast.Name) and y.iter.id == sa_shares]
                         for c in adds:
-                            ok0 = ok0 and len(c.args) == 1 and isinstance(c.args[0], ast.Name) and c.args[0].id == "shnum"
+                            host = [f for f in fors if any(z is c for z in ast.walk(f))]
+                            ok0 = ok0 and len(c.args) == 1 and bool(host) and _item0_of(host[0].target, c.args[0])
                         if any(isinstance(d, ast.Call) and call_name(d) == "set" and not d.args for d in ds) and not adds:
                             ok0 = False      # an empty set that nothing is added to: every version would count 0 good shares
                     else:
